@@ -59,6 +59,9 @@ structure DState where
   snap : Option Snap := none
   rows : List IRow := []       -- rows reported since the last metrics line
   rescan : Bool := false
+  adopt : Bool := false        -- an account operation committed: adopt the usage the rows report, route the delta
+  acctOps : Nat := 0
+  renewals : Nat := 0
   preRescan : List (Nat × Ver × View) := []
   pendingRevertCheck : Option (List IRow) := none
   lastRows : List IRow := []
@@ -154,6 +157,31 @@ def diffRevert (before after : List IRow) : Option String :=
       let va' := if a.rev == b.rev then va else { va with revConfirmed := vb.revConfirmed }
       if vb == va' then none else some s!"c{b.id}:{showView vb}!={showView va}"
 
+/-- component-wise difference of the metric-relevant usage categories; `none` when one decreased -/
+def usageDelta (new old : Usage) : Option Usage :=
+  if new.rpc ≥ old.rpc && new.storage ≥ old.storage && new.ingress ≥ old.ingress && new.egress ≥ old.egress &&
+     new.regRead ≥ old.regRead && new.regWrite ≥ old.regWrite && new.risked ≥ old.risked then
+    some { rpc := new.rpc - old.rpc, storage := new.storage - old.storage, ingress := new.ingress - old.ingress,
+           egress := new.egress - old.egress, regRead := new.regRead - old.regRead, regWrite := new.regWrite - old.regWrite,
+           acct := 0, risked := new.risked - old.risked }
+  else none
+
+/-- adopt the usage and revision number the implementation reports for every contract and move the
+model's metrics by the delta, routed by status exactly as `addUsage` does -/
+def adoptRows (s : State) (rows : List IRow) : Option State :=
+  rows.foldlM (fun (s : State) r =>
+    match findC r.ver r.id s.cs with
+    | none => none
+    | some c =>
+      match usageDelta r.usage c.usage with
+      | none => none
+      | some du =>
+        match addUsage r.ver r.id r.rev du s with
+        | .ok s1 =>
+          -- account funding is no metric category; take it as reported
+          some { s1 with cs := s1.cs.map fun x => if x.ver == r.ver && x.id == r.id then { x with usage := { x.usage with acct := r.usage.acct } } else x }
+        | .error _ => none) s
+
 def toContract (r : IRow) : Contract :=
   { id := r.id, ver := r.ver, status := r.st, locked := r.locked, usage := r.usage }
 
@@ -207,7 +235,8 @@ def step (d : DState) (l : Line) : DState × List Verdict :=
     | some rb, some buf =>
       ({ rb, buf, hists := d.hists + 1, applies := d.applies, reverts := d.reverts, wfOps := d.wfOps, illOps := d.illOps,
          taintedHists := d.taintedHists + (if d.tainted then 1 else 0), batches := d.batches, usages := d.usages,
-         actions := d.actions, twins := d.twins, rescans := d.rescans, faultsAgreed := d.faultsAgreed, cells := d.cells }, [])
+         actions := d.actions, twins := d.twins, rescans := d.rescans, faultsAgreed := d.faultsAgreed, cells := d.cells,
+         acctOps := d.acctOps, renewals := d.renewals }, [])
     | _, _ => (d, [.badline "reset"])
   else if d.dead then (d, [])
   else if l.op == "add" then
@@ -256,6 +285,20 @@ def step (d : DState) (l : Line) : DState × List Verdict :=
           | [] => false
       let r := if isApply then applyBlock codeTable d.rb h ch d.m else revertContracts codeTable h ch d.m
       let cls := faultClass r
+      -- internal consistency: the global model and the per-contract semantics the C01 theorems are
+      -- stated about must agree on every contract whenever the block touches each contract at most once
+      let proj : List Verdict :=
+        match r with
+        | .ok m' =>
+          if (ids1 ch).Nodup && (ids2 ch).Nodup then
+            (d.m.cs.findSome? fun c =>
+              let e := eventFor (!isApply) c.ver c.id ch
+              let pc := stepH codeTable d.rb c (if isApply then .apply h e else .revert h e)
+              match pc, findC c.ver c.id m'.cs with
+              | .ok c1, some c2 => if c1 == c2 then none else some [Verdict.mismatch "c01/model_projection" s!"c{c.id}" "global!=per-contract"]
+              | _, _ => some [Verdict.mismatch "c01/model_projection" s!"c{c.id}" "per-contract fault"]).getD []
+          else []
+        | .error _ => []
       let d := { d with applies := d.applies + (if isApply then 1 else 0), reverts := d.reverts + (if isApply then 0 else 1),
                         wfOps := d.wfOps + (if wf then 1 else 0), illOps := d.illOps + (if wf then 0 else 1) }
       -- property monitors first
@@ -264,7 +307,7 @@ def step (d : DState) (l : Line) : DState × List Verdict :=
         else if wf && !d.tainted && res != "ok" then [.monitor "c01/wf_update_never_fails" s!"{l.op}@{h}:{res}"]
         else []
       let v2 := if v1.isEmpty then cmp "c01/res" cls res else []
-      let vs := v1 ++ v2
+      let vs := v1 ++ v2 ++ proj
       if !vs.isEmpty then flag d vs else
       match r with
       | .ok m' =>
@@ -273,9 +316,10 @@ def step (d : DState) (l : Line) : DState × List Verdict :=
         if d.rescan then
           ({ d with m := m', stack := (h, ch) :: d.stack }, [])
         else if isApply then
-          let spec' := match applyContracts codeTable h ch specHead with
-            | .ok s => s
-            | .error _ => specHead
+          let (spec', specOk) := match applyContracts codeTable h ch specHead with
+            | .ok s => (s, true)
+            | .error _ => (specHead, false)
+          let tainted := tainted || !specOk
           ({ d with m := m', tainted, stack := (h, ch) :: d.stack, spec := spec' :: d.spec,
                     implViews := (if d.sawMetrics then some d.lastRows else none) :: d.implViews,
                     sawMetrics := false, pendingRevertCheck := none }, [])
@@ -302,6 +346,28 @@ def step (d : DState) (l : Line) : DState × List Verdict :=
         flag { d with m := m', spec } vs
       | .error _ => flag d vs
     | _, _, _, _ => (d, [.badline "usage"])
+  else if l.op == "acct" then
+    match getStr l.obs "res" with
+    | some res =>
+      let d := { d with acctOps := d.acctOps + 1 }
+      if res == "panic:negative_stat" then flag d [.monitor "c05/no_negative_stat" s!"acct:{(getStr l.args "kind").getD "?"}"]
+      else if res == "panic" then flag d [.mismatch "c05/acct.res" "ok|err" res]
+      else ({ d with adopt := res == "ok" }, [])
+    | none => (d, [.badline "acct"])
+  else if l.op == "renew1" then
+    match getNat l.args "c", getNat l.args "new", getNat l.args "neg", getNat l.args "ws", getNat l.args "we",
+          getNat l.args "rev", getNat l.args "locked", parseUsage l.args "u", parseUsage l.args "cu", getStr l.obs "res" with
+    | some c, some nw, some neg, some ws, some we, some rev, some locked, some u, some cu, some res =>
+      let con : Contract := { id := nw, ver := .v1, neg, wStart := ws, wEnd := we, rev, locked, usage := u }
+      let r := (addContract con d.m).bind fun m1 => addUsage .v1 c (2^62) cu m1
+      let d := { d with renewals := d.renewals + 1 }
+      let vs := if res == "panic:negative_stat" then [.monitor "c05/no_negative_stat" s!"renew1:c{c}"] else cmp "c05/renew.res" (faultClass r) res
+      match r with
+      | .ok m' =>
+        let spec := d.spec.map fun s => match (addContract con s).bind (fun s1 => addUsage .v1 c (2^62) cu s1) with | .ok s' => s' | .error _ => s
+        flag { d with m := m', spec } vs
+      | .error _ => flag d vs
+    | _, _, _, _, _, _, _, _, _, _ => (d, [.badline "renew1"])
   else if l.op == "row" then
     match getNat l.args "c", getNat l.obs "v", (getStr l.obs "st").bind parseSt, getNat l.obs "conf",
           (getStr l.obs "confh").bind parseOptNat, getNat l.obs "revconf", (getStr l.obs "resh").bind parseOptNat,
@@ -317,6 +383,19 @@ def step (d : DState) (l : Line) : DState × List Verdict :=
       let rows := d.rows
       let d := { d with rows := [], lastImplViews := implViews rows, lastRows := rows, sawMetrics := true }
       if d.inBatch then (d, []) else
+      let (d, vadopt) : DState × List Verdict :=
+        if d.adopt then
+          match adoptRows d.m rows with
+          | some m' =>
+            let spec := d.spec.map fun s =>
+              let cs := s.cs.map fun x => match rows.find? (fun r => r.ver == x.ver && r.id == x.id) with
+                                          | some r => { x with rev := r.rev, usage := r.usage }
+                                          | none => x
+              { cs, m := recompute cs }
+            ({ d with m := m', spec, adopt := false }, [])
+          | none => ({ d with adopt := false }, [.mismatch "c05/row.usage" "non-decreasing revenue categories" "a category decreased"])
+        else (d, [])
+      if !vadopt.isEmpty then flag d vadopt else
       -- C05: metrics = recomputation over the implementation's own rows
       let rec5 := metricsList (recompute (rows.map toContract))
       let v5 : List Verdict := match firstDiff metricNames rec5 im with
@@ -416,6 +495,6 @@ def step (d : DState) (l : Line) : DState × List Verdict :=
   else (d, [.badline "unknown op"])
 
 def stats (d : DState) : String :=
-  s!"hists={d.hists} applies={d.applies} reverts={d.reverts} wf_ops={d.wfOps} ill_ops={d.illOps} batches={d.batches} usages={d.usages} actions={d.actions} twins={d.twins} rescans={d.rescans} faults_agreed={d.faultsAgreed}"
+  s!"hists={d.hists} applies={d.applies} reverts={d.reverts} wf_ops={d.wfOps} ill_ops={d.illOps} batches={d.batches} usages={d.usages} actions={d.actions} acct_ops={d.acctOps} renewals={d.renewals} twins={d.twins} rescans={d.rescans} faults_agreed={d.faultsAgreed}"
 
 end Hostd.Drive.Chain
